@@ -30,6 +30,26 @@ def gen_cases(tier):
             cfgs = [([], True, None), ([], False, None), ([], True, [1]), ([], False, [3, 1])]
             cases.append({"id": i + 1, "raw": raw, "cfgs": cfgs})
             continue
+        if i % 12 == 1:
+            # a dividend guarantee coupling two inputs shared with the divisor; the assumptions couple them with MIXED signs, so that no
+            # bound on their sum follows (tactics 1 / 3 have to check the sign of every coefficient, not only the diagonal)
+            k, c1_, c2_ = rng.choice([2, 3]), rng.randint(0, 2), rng.randint(0, 2)
+            rows = [({"i1": 1, "i2": -1}, c1_), ({"i1": -k, "i2": 1}, c2_)]
+            if rng.random() < 0.5:
+                rows.reverse()
+            top = {"inv": ["i1", "i2"], "outv": ["p"], "a": list(rows), "g": [({"p": 1, "i1": rng.choice([1, 2]), "i2": rng.choice([1, 2])}, rng.randint(5, 12))]}
+            div = {"inv": ["i1", "i2"], "outv": ["o"], "a": list(rows), "g": [({"o": 1, "i1": -1}, 0), ({"o": -1}, 3)]}
+            cfgs = [([], True, None), ([], False, None), ([], True, [1]), ([], False, [3, 1]), ([], True, [1, 2, 3])]
+            cases.append({"id": i + 1, "raw": {"kind": "random", "top": top, "div": div}, "cfgs": cfgs})
+            continue
+        if i % 12 == 3:
+            # the dividend's assumptions CONTRADICT the divisor's on a shared input, and the dividend's guarantees mention no shared variable
+            lo = rng.randint(3, 6)
+            top = {"inv": ["x"], "outv": ["o"], "a": [({"x": -1}, -lo), ({"x": 1}, lo + rng.randint(2, 5))], "g": [({"o": 1}, rng.randint(1, 4))]}
+            div = {"inv": ["x"], "outv": ["y"], "a": [({"x": 1}, lo - rng.randint(2, 3))], "g": [({"y": 1, "x": -1}, 0)]}
+            cfgs = [([], True, None), ([], False, None), ([], True, gen.rorder(rng))]
+            cases.append({"id": i + 1, "raw": {"kind": "random", "top": top, "div": div}, "cfgs": cfgs})
+            continue
         if i % 12 in (5, 9):
             # a dividend guarantee over two inputs it shares with the divisor; the assumptions meet in one point (degenerate LP optimum
             # for tactic 5, which is tried first)
